@@ -73,9 +73,47 @@ def rng_failure_leg(ctx):
         ctx.inconclusive.append("rng failure leg: no run with a failing random source could be produced")
 
 
+def multiprocess_salt_leg(ctx):
+    """Several processes (CLI invocations next to each other, as an administrator's script would start them) write records into
+    one store at the same moment: salts are fresh across processes too, never a function of the start time."""
+    import base64, fsfam, time
+    exe = ctx.build_agent()
+    n = 0
+    for default in (1, 2):
+        root = os.path.join(ctx.scratch, "mpsalt-%d" % default)
+        base = os.path.join(root, "base")
+        os.makedirs(base, exist_ok=True)
+        open(os.path.join(base, "root.admin"), "w").write(fsfam.scrypt_record(b"pw"))
+        cfg = os.path.join(root, "store.yaml")
+        open(cfg, "w").write((fsfam.CFG % (base, base64.b64encode(fsfam.HMAC1).decode())).replace("default: 1", "default: %d" % default))
+        salts = {}
+        for rnd in range(3):
+            while time.time() % 1 > 0.3:          # start the whole batch early in a wall-clock second
+                time.sleep(0.02)
+            procs = [subprocess.Popen([exe, "--store", cfg, "add", "mp%d-%d" % (rnd, i), "the same password"], stdout=subprocess.DEVNULL, stderr=subprocess.DEVNULL)
+                     for i in range(6)]
+            for p in procs:
+                p.wait()
+            for i in range(6):
+                f = os.path.join(base, "mp%d-%d.user" % (rnd, i))
+                if os.path.exists(f):
+                    fld = open(f).read().split("\n")[0].split(":")
+                    if len(fld) == 5:
+                        n += 1
+                        salts.setdefault(fld[3], []).append("mp%d-%d" % (rnd, i))
+        dup = {s: u for s, u in salts.items() if len(u) > 1}
+        if dup:
+            ctx.violation("C14", "written-record:salt-reused-across-processes:%s" % ("argon2id" if default == 2 else "scrypt"),
+                          "records written by different processes carry the same salt: %s" % list(dup.values())[:3])
+    ctx.coverage["multiprocess_writes"] = n
+    if n < 20:
+        ctx.inconclusive.append("multi-process salt leg: only %d records were written" % n)
+
+
 def run(ctx):
     thorough = ctx.tier == "thorough"
     rng_failure_leg(ctx)
+    multiprocess_salt_leg(ctx)
     # every write edge of the Store model: shape, default set, time, salt size, salt != previous, digest (C14-tagged findings)
     storefam.run_family(ctx, only_ops=("add", "update", "init"), seeds=[ctx.seed])
     # the same rules along model histories (SimStore, 3 parameter sets, default switches) against one real directory each
